@@ -4,6 +4,7 @@ import re
 from engine import rule, AnchorLost
 from model import enum_edge, Super, PathSens, fn_of, trace, strace, is_place, site, const_value, carriers, switches_on_carriers
 import common
+import cfgbound
 import vocab
 import deny
 import tables
@@ -196,6 +197,11 @@ def r03_1(ctx):
             ctx.ob(f"{key}:framing-error-propagates", used, sup.site(wn), "a failing framing write fails the translation" if used else "the framing write's error is ignored (a path on which the write failed still returns Ok)")
 
 
+def lib_on_cycle(body, callee_id):
+    """Is some call of `callee_id` in `body` inside a loop of that body?"""
+    return any(body.on_cycle(bb) for bb, t in body.calls() if ((fn_of(t) or {}).get("resolved") or (fn_of(t) or {}).get("def")) == callee_id)
+
+
 @rule("R03.2", 7, "one sink per translator: outputs are constructed only by the dispatcher constructor, which only the translator constructor calls; entry points reborrow the same field", ["C03"])
 def r03_2(ctx):
     lib = ctx.lib
@@ -209,7 +215,7 @@ def r03_2(ctx):
 
     # the dispatcher's constructor by role: the function (associated or free) that returns a fresh dispatcher
     # from a writer and a format
-    disp_ctor = [b for b in lib.bodies if b.raw["def_kind"] in ("AssocFn", "Fn") and b.local_ty(0).startswith(disp_adt) and b.nargs == 2 and not any(b.local_ty(i).startswith("&") for i in (1, 2))]
+    disp_ctor = [b for b in lib.bodies if b.raw["def_kind"] in ("AssocFn", "Fn") and b.local_ty(0).startswith(disp_adt) and b.nargs >= 2 and not any(b.local_ty(i).startswith("&") for i in (1, 2))]
     ctx.need(len(disp_ctor) == 1, "dispatcher constructor not found")
     disp_ctor = disp_ctor[0]
     for adt, fmt in sorted(out_adts.items()):
@@ -234,10 +240,25 @@ def r03_2(ctx):
             if (f.get("resolved") or f.get("def")) == disp_ctor.id or f.get("def") == disp_ctor.id:
                 callers.add(b.id)
     pub_new = [c for c in callers if lib.by_id[c].raw.get("vis") == "Public" and lib.by_id[c].name == "new"]
-    ctx.ob("dispatcher-ctor:only-translator-new", len(callers) == 1 and len(pub_new) == 1, site(disp_ctor), f"dispatcher constructed by {sorted(callers)}")
+    ok_ctor = len(callers) == 1 and len(pub_new) == 1
+    if not ok_ctor and len(callers) == 1:
+        # `Translator::new` delegating to a second public constructor (`with_limit(output, to, limit)`) that builds
+        # the dispatcher: still one dispatcher per translator, made where the translator is made
+        cb_ = lib.by_id[next(iter(callers))]
+        self_adt = cb_.raw.get("impl_self_adt")
+        is_ctor = cb_.raw.get("vis") == "Public" and cb_.raw["def_kind"] == "AssocFn" and self_adt and cb_.local_ty(0).startswith(self_adt) and not (cb_.nargs >= 1 and cb_.local_ty(1).lstrip("&").replace("mut ", "").startswith(self_adt))
+        news = [b_ for b_ in lib.bodies if b_.raw.get("impl_self_adt") == self_adt and b_.name == "new" and b_.raw.get("vis") == "Public"]
+        delegates = bool(news) and all(any(((fn_of(t_) or {}).get("resolved") or (fn_of(t_) or {}).get("def")) == cb_.id for _, t_ in nb.calls()) for nb in news)
+        ok_ctor = bool(is_ctor and delegates and not lib_on_cycle(cb_, disp_ctor.id))
+    ctx.ob("dispatcher-ctor:only-translator-new", ok_ctor, site(disp_ctor), f"dispatcher constructed by {sorted(callers)}")
     # entry points receive a reborrow of the translator's own dispatcher field
     eps = common.input_entry_points(ctx.facts)
     ids = {b.id: f for f, b in eps.items()}
+    deleg = {}
+    for fmt_ in eps:
+        for db in common.input_entry_delegators(ctx.facts, fmt_):
+            ids[db.id] = fmt_
+            deleg[db.id] = db
     n = 0
     for b in lib.bodies:
         for bb, t in b.calls():
@@ -247,6 +268,9 @@ def r03_2(ctx):
                 n += 1
                 tr = trace(b, t["args"][1])
                 ok = bool(tr.origin and tr.origin[0] == "arg" and tr.origin[1] == 1 and tr.has("field") and all(s[0] in ("use", "ref", "deref", "field") for s in tr.steps))
+                if not ok and b.id in deleg and ids.get(b.id) == ids[r]:
+                    # a delegating entry point hands on the output it was given
+                    ok = bool(tr.origin and tr.origin[0] == "arg" and tr.origin[1] == 2 and all(s[0] in ("use", "ref", "deref") for s in tr.steps))
                 ctx.ob(f"entry:{ids[r]}:same-dispatcher", ok, site(b, bb), "output argument is `&mut self.<dispatcher>`" if ok else "input entry point receives something other than the translator's own dispatcher")
     ctx.ob("entry-call-sites", n >= 4, "lib", f"{n} entry-point call site(s)")
 
@@ -290,7 +314,19 @@ def r03_3(ctx):
             cb = ctx.lib.by_id.get(f.get("resolved") or f.get("def"))
             if cb and cb.file == b.file and cb not in bodies and cb.raw["def_kind"] == "Fn":
                 bodies.append(cb)
-    hs = deny.hits(bodies, "reorder")
+    hs0 = deny.hits(bodies, "reorder")
+    hs = []
+    for entry, b, bb, t in hs0:
+        # what is being iterated: the characters or bytes of one string (`s.chars().last()`), or a constant table
+        # (`FORMAT_NAMES.iter().filter(..)`), cannot be the inputs or the documents
+        st = str((fn_of(t) or {}).get("self_ty") or "")
+        over_text = any(w in st for w in ("std::str::Chars", "std::str::CharIndices", "std::str::Bytes", "std::str::Split", "std::str::Lines"))
+        rt = trace(b, t["args"][0], passthrough_extra=("::iter", "::into_iter", "std::iter::Iterator::", "std::iter::IntoIterator::into_iter")) if t["args"] else None
+        over_const = bool(rt and rt.origin and rt.origin[0] == "const" and rt.origin[1].get("def"))
+        if over_text or over_const:
+            ctx.ob(f"adaptor:{entry}:{b.name}", True, site(b, bb), f"`{fn_of(t)['def']}` over " + ("the characters of a string" if over_text else f"the constant table {rt.origin[1].get('def')}") + ": not the inputs or the documents", trivial=True)
+            continue
+        hs.append((entry, b, bb, t))
     for entry, b, bb, t in hs:
         ctx.ob(f"adaptor:{entry}:{b.name}", False, site(b, bb), f"`{fn_of(t)['def']}` can drop or reorder inputs/documents")
     ctx.ob("no-reordering-adaptor", not hs, "bin+lib", f"{len(bodies)} bodies scanned (main, argument parser, path iterator, input entry points)")
@@ -519,6 +555,17 @@ def r05_1(ctx):
                         lim_ok, consts = _bounded_by_constants(lib, cm, b, t2["args"][1])
             # "bounded" means bounded by something a machine can hold: the largest constant a limit derives from is
             # capped (16 MiB; today's largest is the 2 MiB TOML detection cut-off). `take(u64::MAX)` is not a bound.
+            if not lim_ok:
+                # an adjustable look-ahead: built-in values within the cap, which only a caller's own setting replaces
+                for bb2, t2 in b.calls():
+                    if (fn_of(t2) or {}).get("def") == "std::io::Read::take":
+                        alts = cfgbound.alternatives(lib, b, t2["args"][1])
+                        if cfgbound.is_default_with_override(alts, 0, SLURP_CAP):
+                            ctx.ob(key + ":bounded-take", True, site(b, bb), f"reads at most n bytes with n from {cfgbound.describe(alts)}: built-in values within the cap, otherwise the caller's own setting")
+                            lim_ok = None
+                if lim_ok is None:
+                    continue
+                lim_ok = False
             big = [c for c in consts if isinstance(c, int) and c > SLURP_CAP]
             if lim_ok and big:
                 ctx.ob(key + ":bounded-take", False, site(b, bb), f"the Take limit derives from the constant {big[0]}: not a bound on look-ahead (cap {SLURP_CAP} bytes)")
@@ -586,6 +633,15 @@ def r05_3(ctx):
                     # a named constant behind a newtype and its accessor: `CUTOFF.size_hint()`
                     v = common.accessor_const(lib, bx, t["args"][1])
                 cap = (16 << 20) if fmt == "toml" else 4096
+                if v is None:
+                    # an adjustable look-ahead: a built-in default within the accepted bound, which only a value
+                    # chosen through the public API may replace (a constant as far as the stream is concerned)
+                    alts = cfgbound.alternatives(lib, bx, t["args"][1])
+                    if cfgbound.is_default_with_override(alts, 0, cap):
+                        ctx.ob(f"{fmt}:prefix-size-constant", True, sup.site(nn), f"prefix(n) with n from {cfgbound.describe(alts)}: the built-in value is within the accepted look-ahead for this trial (<= {cap} bytes) and only the caller's own setting replaces it")
+                        continue
+                    ctx.ob(f"{fmt}:prefix-size-constant", False, sup.site(nn), f"prefix(n) with n from {cfgbound.describe(alts)}: not a built-in value <= {cap} bytes that only a caller's setting replaces")
+                    continue
                 ctx.ob(f"{fmt}:prefix-size-constant", isinstance(v, int) and v <= cap, sup.site(nn), f"prefix({v}) (accepted look-ahead for this trial: <= {cap} bytes)")
                 if fmt == "toml" and isinstance(v, int):
                     # the prefix length is compared with the same constant and the at-or-above-cap outcome
@@ -1003,6 +1059,7 @@ def r10_4(ctx):
     ridx = readers[0]
     # cap = the constant handed to the prefix accessor
     caps = []
+    cap_params = []
     for nn, bx, t in sup.calls():
         f = fn_of(t) or {}
         cb = lib.by_id.get(f.get("resolved") or f.get("def"))
@@ -1013,7 +1070,13 @@ def r10_4(ctx):
                 v = common.accessor_const(lib, bx, t["args"][1])
             if isinstance(v, int):
                 caps.append(v)
-    ctx.need(caps, "prefix accessor call with a constant size not found in the TOML trial")
+            elif tr.origin and tr.origin[0] == "arg" and not tr.origin_node[0] and all(x[0] in ("use", "cast", "enter_caller") for x in tr.steps):
+                # an adjustable cap handed to the trial: the parameter stands for the cap, its sources are judged below
+                cap_params.append((tr.origin[1], cfgbound.alternatives(lib, trial, {"k": "copy", "p": {"l": tr.origin[1], "pr": []}})))
+            elif tr.origin and tr.origin[0] == "call" and all(x[0] in ("use", "cast", "enter_caller") for x in tr.steps):
+                # .. or read from the input object (`r.lookahead()`): that call's result stands for the cap
+                cap_params.append((tr.origin[2], cfgbound.alternatives(lib, bx, t["args"][1])))
+    ctx.need(caps or cap_params, "prefix accessor call with a constant size (or a size parameter of the trial) not found in the TOML trial")
     # reader edges of switches on the input enum
     redges = []
     for sn in sorted(sup.nodes(), key=str):
@@ -1035,6 +1098,10 @@ def r10_4(ctx):
                     return True
                 if is_place(o_):
                     t_ = strace(sup, cn, o_)
+                    if t_.origin and t_.origin[0] == "arg" and not t_.origin_node[0] and any(p_ == t_.origin[1] for p_, _ in cap_params if isinstance(p_, int)) and all(x[0] in ("use", "cast", "enter_caller") for x in t_.steps):
+                        return True
+                    if t_.origin and t_.origin[0] == "call" and any(p_ is t_.origin[2] for p_, _ in cap_params if not isinstance(p_, int)) and all(x[0] in ("use", "cast", "enter_caller") for x in t_.steps):
+                        return True
                     return bool(t_.origin and t_.origin[0] == "const" and t_.origin[1].get("v") in caps)
                 return False
 
@@ -1042,10 +1109,14 @@ def r10_4(ctx):
                 n += 1
                 ok = any(ps.edge_dominates(e[0], e[1], e[2], cn) for e in redges)
                 ctx.ob(f"cap-test-under-reader-arm:{n}", ok, sup.site(cn), "the size cap is tested only for reader input" if ok else "the size cap is also applied to in-memory input: a large TOML document (xt's own output) is no longer recognised")
-    ctx.ob("cap-tests-found", n >= 1, site(trial), f"{n} comparison(s) with the cap constant {sorted(set(caps))}")
+    ctx.ob("cap-tests-found", n >= 1, site(trial), f"{n} comparison(s) with the cap {sorted(set(caps)) or 'parameter'}")
     # the properties are stated for inputs up to 2 MiB (C09's quantifier; the manual's "documents under 2 MiB"): a
     # smaller cap makes the TOML trial refuse reader input that it recognises from a slice
     floor_ = 2 << 20
+    if not caps:
+        okc = all(cfgbound.is_default_with_override(a_, floor_, 1 << 62) for _, a_ in cap_params)
+        ctx.ob("cap-covers-2MiB", okc, site(trial), f"the adjustable TOML look-ahead cap comes from {[cfgbound.describe(a_) for _, a_ in cap_params]}: " + (f"every built-in value is >= {floor_}, anything else is the caller's own setting" if okc else f"not a built-in value >= {floor_} that only a caller's setting replaces"))
+        return
     ctx.ob("cap-covers-2MiB", min(caps) >= floor_, site(trial), f"TOML look-ahead cap {min(caps)} >= {floor_}" if min(caps) >= floor_ else
            f"the TOML trial gives up on unbuffered reader input of {min(caps)} bytes or more, below the 2 MiB ({floor_}) up to which detected and explicit runs must agree: xt's own TOML output between the two sizes is no longer recognised when piped back")
 
